@@ -482,3 +482,30 @@ func IsInterface(t types.Type) bool {
 func IsErrorType(t types.Type) bool {
 	return types.Identical(t, types.Universe.Lookup("error").Type())
 }
+
+// GlobalStores returns the values stored into a package-level variable by any
+// function of its package (go/ssa keeps no referrer lists for globals).
+func GlobalStores(g *ssa.Global) []ssa.Value {
+	var out []ssa.Value
+	pkg := g.Package()
+	if pkg == nil {
+		return nil
+	}
+	var scan func(fn *ssa.Function)
+	scan = func(fn *ssa.Function) {
+		EachInstr(fn, func(in ssa.Instruction) {
+			if st, ok := in.(*ssa.Store); ok && st.Addr == ssa.Value(g) {
+				out = append(out, st.Val)
+			}
+		})
+		for _, a := range fn.AnonFuncs {
+			scan(a)
+		}
+	}
+	for _, m := range pkg.Members {
+		if fn, ok := m.(*ssa.Function); ok {
+			scan(fn)
+		}
+	}
+	return out
+}
